@@ -182,11 +182,12 @@ func init() {
 		base := fmt.Sprintf("tok%d", k)
 		c := &carrier{claims: a[0], alg: a[1].(*Term), kid: a[2].(*Term), nsig: ex.concreteInt(a[3], "Token nsig")}
 		c.tok = ex.fresh(base, SSeq, "env")
+		ex.assume(Ge(SeqLen(c.tok), IntLit(5)))
 		for i := 0; i < 3; i++ {
 			c.parts[i] = UF("jwtpart", SSeq, c.tok, IntLit(int64(i)))
 		}
-		c.payload = UF("b64dec", SSeq, c.parts[1])
-		ex.assume(UF("b64ok", SBool, c.parts[1]))
+		c.payload = ex.fresh(base+".payload", SSeq, "env")
+		ex.memo["b64dec:"+c.parts[1].String()] = BytesV{T: c.payload}
 		if iv, ok := a[0].(Iface); ok && iv.T != nil {
 			t := iv.T
 			if p, ok := t.Underlying().(*types.Pointer); ok {
